@@ -165,6 +165,9 @@ func (s *RecSc) Shrinks(try0 func(core.Scenario) bool) bool {
 	n := len(s.Stream)
 	for size := n; size >= 1; size /= 2 {
 		for a := 0; a+size <= n; a += size {
+			if core.ShrinkOver() {
+				return false
+			}
 			if x := l.removeRange(a, a+size); x != nil && len(x.Stream) > 0 {
 				if try(mk(x)) {
 					return true
